@@ -160,8 +160,11 @@ def units(prop, tier):
     if prop == 'C18':
         return [pyvc_unit(prop, 'key.dsa.generate', registry, [D + 'generate'])]
     if prop == 'C05':
+        # generate(domain=...) belongs to C05 as much as to C18: "generated keys are mutually consistent" needs 1 <= x <= q - 1
+        # (seeded change C05-dsa-generate-x-mod-q was first missed under C05)
         return [pyvc_unit(prop, 'key.dsa.construct', registry, [D + 'construct']),
-                pyvc_unit(prop, 'key.elgamal.construct', registry, [E + 'construct'])]
+                pyvc_unit(prop, 'key.elgamal.construct', registry, [E + 'construct']),
+                pyvc_unit(prop, 'key.dsa.generate', registry, [D + 'generate'])]
     return []
 
 
